@@ -17,10 +17,10 @@ NAMES = [None, "__r0", "__r1", "__c0", "__c1", "a", "__c2"]
 AI = lambda n, i: ("array_item", n, i)
 
 
-def q_program(shape, L1, L2, RG, size, v, k, x):
-    """The program as an S-expression over the placeholder names L1, L2 (lets) and RG (register)."""
+def q_program(shape, L1, L2, L3, RG, size, v, k, x):
+    """The program as an S-expression over the placeholder names L1, L2, L3 (lets) and RG (register)."""
     f = FLOATS[x]
-    head = ["circuit", ["let", L1, v], ["let", L2, f]]
+    head = ["circuit", ["let", L1, v], ["let", L2, f], ["let", L3, k]]
     if shape == 3:
         head.append(["register", RG, L1])
     else:
@@ -31,7 +31,7 @@ def q_program(shape, L1, L2, RG, size, v, k, x):
     elif shape == 1:
         body = [["gate", "prepare_all"], g, ["loop", L1, ["sequential_block", ["gate", "h1", AI(RG, 0), f]]], ["gate", "measure_all"]]
     elif shape == 2:
-        body = [["subcircuit_block", L1, g, ["gate", "n1", L2]], ["loop", k, ["sequential_block", ["subcircuit_block", 1, ["parallel_block", g], g]]]]
+        body = [["subcircuit_block", L1, g, ["gate", "n1", L2]], ["loop", L3, ["sequential_block", ["subcircuit_block", k, ["parallel_block", g], g]]]]
     elif shape == 3:
         body = [["sequential_block", g, ["parallel_block", ["sequential_block", g, g], ["gate", "n1", v]]], ["parallel_block", ["gate", "n1", L2]]]
     elif shape == 4:
@@ -111,16 +111,16 @@ def _starts_with_prepare(st):
     return False
 
 
-def c17_three(shape: int, n1: int, n2: int, nr: int, size: int, v: int, k: int, x: int) -> str:
-    user = {"L1": NAMES[n1], "L2": NAMES[n2], "RG": NAMES[nr]}
-    sx = q_program(shape, "L1", "L2", "RG", size, v, k, x)
+def c17_three(shape: int, n1: int, n2: int, n3: int, nr: int, size: int, v: int, k: int, x: int) -> str:
+    user = {"L1": NAMES[n1], "L2": NAMES[n2], "L3": NAMES[n3], "RG": NAMES[nr]}
+    sx = q_program(shape, "L1", "L2", "L3", "RG", size, v, k, x)
     given = [u for u in user.values() if u is not None]
     dup = len(set(given)) != len(given)
     # is the program itself valid?  (judge on a copy with distinct names)
-    probe = q_program(shape, "u1", "u2", "ur", size, v, k, x)
+    probe = q_program(shape, "u1", "u2", "u3", "ur", size, v, k, x)
     ref, why = try_ref(probe)
     try:
-        cq = run_qsyntax(sx, {"L1": user["L1"], "L2": user["L2"]}, {"RG": user["RG"]})
+        cq = run_qsyntax(sx, {"L1": user["L1"], "L2": user["L2"], "L3": user["L3"]}, {"RG": user["RG"]})
     except JaqalError as ex:
         if dup or ref is None:
             return "~rejected"
@@ -133,20 +133,20 @@ def c17_three(shape: int, n1: int, n2: int, nr: int, size: int, v: int, k: int, 
         return "~reference invalid"
     lets = list(cq.constants)
     regs = [n for n, r in cq.registers.items()]
-    if len(lets) != 2 or len(regs) != 1:
+    if len(lets) != 3 or len(regs) != 1:
         return f"{len(lets)} constants / {len(regs)} registers"
-    actual = {"L1": lets[0], "L2": lets[1], "RG": regs[0]}
+    actual = {"L1": lets[0], "L2": lets[1], "L3": lets[2], "RG": regs[0]}
     for ph, nm in user.items():
         if nm is not None and actual[ph] != nm:
             return f"user name {nm!r} not used for {ph} (got {actual[ph]!r})"
-    if len(set(actual.values())) != 3:
+    if len(set(actual.values())) != 4:
         return f"names collide: {actual}"
     for ph, nm in actual.items():
         if user[ph] is None and nm in given:
             return f"auto-generated name {nm!r} collides with a user-chosen name {given}"
     # the same program with those names through the other two front ends
-    named = q_program(shape, actual["L1"], actual["L2"], actual["RG"], size, v, k, x)
-    body_start = 4
+    named = q_program(shape, actual["L1"], actual["L2"], actual["L3"], actual["RG"], size, v, k, x)
+    body_start = 5
     body = named[body_start:]
     wrap = len(body) == 0 or not _starts_with_prepare(body[0])
     if wrap:
